@@ -1322,3 +1322,50 @@ M('t_probe_tick_needs_two_members', ['C13'], ['C13-R3'], 'a current probe tick p
   (LIB, '                    } else {\n                        self.probe_random_member(runtime)\n                    }', '                    } else if self.members.num_active() > 1 {\n                        self.probe_random_member(runtime)\n                    } else {\n                        Ok(())\n                    }'))
 M('t_postcard_member_decode_limit', ['C20'], ['C20-R2'], 'postcard decode_member refuses to look at more than 512 bytes of input (a valid member followed by a long tail fails)',
   (POSTCARD, '        let (member, rest) = postcard::take_from_bytes(buf.chunk())?;\n        let after = rest.remaining();', '        if remaining > 512 {\n            return Err(postcard::Error::DeserializeUnexpectedEnd);\n        }\n        let (member, rest) = postcard::take_from_bytes(buf.chunk())?;\n        let after = rest.remaining();'))
+
+# round 7 of refactors by sub-agents: bolder restructurings of the functions the converse-direction rules look at
+NP('n_ref7_handle_data', ALL, 'R49: handle_data restructured (five helpers extracted, matches! guards)', 'selftest/neutral/R49.diff')
+NP('n_ref7_send_message', ALL, 'R50: send_message split into section helpers, clamp moved into estimate_feed_capacity', 'selftest/neutral/R50.diff')
+NP('n_ref7_apply_path', ALL, 'R51: apply_many / apply_update / handle_apply_summary / Members::apply restructured', 'selftest/neutral/R51.diff')
+NP('n_ref7_handle_timer', ALL, 'R52: every arm of handle_timer and probe_random_member restructured', 'selftest/neutral/R52.diff')
+NP('n_ref7_probe_and_state', ALL, 'R53: probe.rs and the connection-state functions restructured', 'selftest/neutral/R53.diff')
+NP('n_ref7_broadcasts', ALL, 'R54: broadcast.rs with a higher-order fill helper, custom-broadcast functions restructured', 'selftest/neutral/R54.diff')
+NP('n_ref7_identity_functions', ALL, 'R55: handle_self_update, attempt_rejoin, change_identity, set_config, accept_payload restructured', 'selftest/neutral/R55.diff')
+NP('n_ref7_runtime_payload_codecs', ALL, 'R56: runtime.rs, payload.rs and both codecs restructured', 'selftest/neutral/R56.diff')
+
+MP('r49_inactive_sender_replies_while_undead', ['C18'], ['C18-R2'], 'extracted inactive-sender helper: the reply no longer depends on not being Undead',
+   'selftest/neutral/R49.diff', (LIB, '        Ok(!matches!(self.connection_state, ConnectionState::Undead)\n            && self.config.notify_down_members)', '        Ok(self.config.notify_down_members)'))
+MP('r50_feed_clamp_dropped', ['C07', 'C06'], ['C07-R4', 'C06-R2'], 'the u16 clamp that moved into estimate_feed_capacity is dropped there',
+   'selftest/neutral/R50.diff', (LIB, '        usize::min(estimate, u16::MAX.into())', '        estimate'))
+MP('r52_periodic_guard_without_token', ['C13'], ['C13-R2'], 'shared guard of the periodic arms no longer tests the token',
+   'selftest/neutral/R52.diff', (LIB, '        token == self.timer_token && self.connection_state == ConnectionState::Connected', '        self.connection_state == ConnectionState::Connected'))
+MP('r53_ack_any_number', ['C12'], ['C12-R1'], 'bound-local form of receive_ack without the probe-number test',
+   'selftest/neutral/R53.diff', (PROBE, '        let is_expected_ack = probeno == self.probe_number && self.is_probing(from);', '        let is_expected_ack = self.is_probing(from);'))
+MP('r54_fit_test_ignores_overhead', ['C06', 'C16'], ['C06-R2', 'C16-R3'], 'higher-order fill helper: the fit test forgets the per-item overhead',
+   'selftest/neutral/R54.diff', (BROADCAST, '            if buffer.remaining_mut() >= node.data.len() + overhead {', '            if buffer.remaining_mut() >= node.data.len() {'))
+MP('r54_accepted_item_not_kept', ['C16'], ['C16-R1'], 'add_broadcast reports Ok(true) without calling the extracted keep helper',
+   'selftest/neutral/R54.diff', (LIB, '        self.keep_broadcast_item(key, data);\n        Ok(true)', '        let _ = key;\n        Ok(true)'))
+MP('r55_accept_any_kind_by_address', ['C17'], ['C17-R3'], 'early-return form of accept_payload accepts every kind by address',
+   'selftest/neutral/R55.diff', (LIB, '        if !matches!(header.message, Message::Announce) {\n            return false;\n        }\n', ''))
+MP('r56_owned_rename_swapped', ['C08'], ['C08-R7'], 'to_owned with named locals: Rename payloads swapped',
+   'selftest/neutral/R56.diff', ('src/runtime.rs', '                Owned::Rename(owned_before, owned_after)', '                Owned::Rename(owned_after, owned_before)'))
+
+# round 8 of refactors by sub-agents. R57 (how runtime/codec/config are passed around) and R61 (Result/Option plumbing, an
+# `ensure(cond, err)` helper) and R60 (methods turned into free functions, a predicate deleted and inlined) are silent on every
+# check. R58 (private enums instead of bools) and R59 (try_for_each pipelines) are only partly handled - see DESIGN.md
+# 10.6 "What is still reported": they are run against the checks that stay silent, so that those do not regress.
+NP('n_ref8_passing_style', ALL, 'R57: by-value / by-reference / associated-function forms of private helpers', 'selftest/neutral/R57.diff')
+NP('n_ref8_result_plumbing', ALL, 'R61: ensure() helper, map / `?` / let-else plumbing', 'selftest/neutral/R61.diff')
+NP('n_ref8_private_enums', ['C06', 'C07', 'C11', 'C12', 'C13', 'C15', 'C16', 'C20'], 'R58: private enums and a parameter struct instead of bools (other checks: known alarms, DESIGN 10.6)', 'selftest/neutral/R58.diff')
+NP('n_ref8_pipelines', ['C11', 'C12', 'C13', 'C15', 'C16'], 'R59: try_for_each / from_fn pipelines in lib.rs (other checks: known alarms, DESIGN 10.6)', 'selftest/neutral/R59.diff')
+NP('n_ref8_moved_functions', ALL, 'R60: private methods moved to free functions / other impl blocks, a kind predicate deleted and inlined at its use', 'selftest/neutral/R60.diff')
+
+MP('r57_accept_payload_wrong_identity', ['C17'], ['C17-R3'], 'associated-function form of accept_payload is handed the sender instead of the own identity',
+   'selftest/neutral/R57.diff', (LIB, 'Self::accept_payload(&self.identity, &header)', 'Self::accept_payload(&header.src, &header)'))
+MP('r61_ensure_inverted', ['C13'], ['C13-R6'], 'ensure() form of the IncompleteProbeCycle report with the condition inverted',
+   'selftest/neutral/R61.diff', (LIB, '        ensure(!probe_was_incomplete, Error::IncompleteProbeCycle)', '        ensure(probe_was_incomplete, Error::IncompleteProbeCycle)'))
+MP('r61_ensure_trailing_bytes_inverted', ['C16'], ['C16-R2'], 'ensure() form of the trailing-bytes check inverted',
+   'selftest/neutral/R61.diff', (LIB, '        ensure(!data.has_remaining(), Error::MalformedPacket)', '        ensure(data.has_remaining(), Error::MalformedPacket)'))
+
+MP('r60_inlined_feed_predicate_widened', ['C07', 'C15'], ['C07-R3', 'C15-R4'], 'the inlined kind predicate of the Feed section also matches Gossip',
+   'selftest/neutral/R60.diff', (LIB, 'matches!(header.message, Message::Feed)', 'matches!(header.message, Message::Feed | Message::Gossip)'))
